@@ -59,6 +59,12 @@ def main():
             suite = "fails: " + "; ".join(bad)[:300]
         meta["pinned_suite_with_change"] = suite
         rc, out = run_demo()
+        if rc == 0:
+            # demonstrations of data races need the race detector
+            shutil.copy(os.path.join(d, "demo_test.go"), dest)
+            rc, out = sh(["go", "test", "-race", "-vet=off", "-count=1", "-run", "Demo|demo", "./" + pkgdir], wt, timeout=1800)
+            os.remove(dest)
+            meta["demo_needs_race_detector"] = True
         meta["demo_with_change"] = "fails" if rc != 0 else "DOES NOT FAIL"
         meta["demo_failure_excerpt"] = "\n".join([l for l in out.split("\n") if l.strip()][:6])[:800]
         meta["checks"] = {}
